@@ -491,7 +491,7 @@ func treeLabels(tree []Entry) []string {
 	return ls
 }
 
-var labelPriority = []string{"escaping-link", "relative-name", "through-final-symlink", "rename-nonempty-dir", "link-over-tracked", "dangling-link-parent", "link-topology", "unclean-abs-target", "rename-onto-dir", "new-link-topology"}
+var labelPriority = []string{"relative-name", "through-final-symlink", "rename-nonempty-dir", "link-over-tracked", "dangling-link-parent", "link-topology", "escaping-link", "unclean-abs-target", "rename-onto-dir", "new-link-topology"}
 
 func knownClass(labels map[string]bool) string {
 	for _, l := range labelPriority {
@@ -791,6 +791,11 @@ func runHistCase(c *HistCase, prop string) (*caseOut, error) {
 			fp := path.Clean("/" + st.Arg[0])
 			cur := blankDirTimes(e.rc.Dump(e.baseSub))
 			ferr := e.bfs.ForceBackup(st.Arg[0])
+			if _, outside := rebaseline(s0, cur, fp, false); outside {
+				// outside C17's domain (a directory, or a parent that does not predate the transaction):
+				// even a failing ForceBackup may drop the tracking entry there; the snapshot oracle is off
+				skipOracle = true
+			}
 			if ferr == nil {
 				forced = true
 				s0, skipOracle = rebaseline(s0, cur, fp, skipOracle)
